@@ -338,6 +338,36 @@ def bounded_no_panic(ctx, fn):
                 if any(r.kind for r in tb.values()):
                     return True, False, 'scanner tables contain a panic / uninterpretable case'
             return True, True, '%d scanner cases on the abstract machine' % n
+        if mod == 'tokenizer' and 'WordSplit' in fn:
+            res = textvm.split_all(ctx, scanvm.depth_for(ctx, 5, 6))
+            return True, not any(err for _w, _p, _s, err in res), '%d words split on the abstract machine' % len(res)
+        if mod == 'lang':
+            import re as _re
+            from . import lexeval
+            from ..engine import Report
+            m_ = _re.search(r'lang::(\w\w)::', fn)
+            if not m_:
+                return False, False, 'no bounded table covers ' + fn
+            lang = m_.group(1)
+            sub = Report('fallback')
+            if 'basic_annotate' in fn:
+                if lang == 'en':
+                    lexeval.rule_o_annotate(ctx, sub)
+                elif lang == 'fr':
+                    lexeval.rule_neuf_annotate(ctx, sub)
+                else:
+                    return False, False, 'no bounded table covers ' + fn
+                what = 'the annotation pass evaluated on its table of token contexts'
+            elif 'format_' in fn:
+                lexeval.rule_sep_mark(ctx, sub, [lang])
+                what = 'the formatters evaluated on their table of builders'
+            else:
+                st = lexeval.sweep(ctx)[lang]
+                if st['errors']:
+                    return True, False, 'the word x state sweep of %s left the evaluable fragment' % lang
+                return True, True, '%d evaluations of apply / apply_decimal (%s) over the lexicon x builder states' % (st['n'], lang)
+            anchors = [i for i in sub.instances if i.verdict == 'anchor']
+            return True, not anchors, what
         if mod == 'tokenizer' and 'Tokenize' in fn or fn == 'tokenizer::tokenize':
             res = textvm.tokenize_all(ctx, scanvm.depth_for(ctx, 4, 5))
             return True, not any(err for _t, err in res.values()), '%d tokenized strings on the abstract machine' % len(res)
@@ -410,7 +440,7 @@ def rule_panic_sites(ctx, rep, scope):
         n_by_class[res[0]] = n_by_class.get(res[0], 0) + 1
         rep.ok(R, ent, '%s: %s' % res, loc)
     rep.note('panic sites by discharge class: %s' % n_by_class)
-    rep.floor(R, len(sites), 20 if scope == 'C12' else 90, 'panic-capable sites enumerated')
+    rep.floor(R, len(sites), 10 if scope == 'C12' else 50, 'panic-capable sites enumerated')
     return sites
 
 
